@@ -150,7 +150,24 @@ def build(unit, workdir):
                 cfg = unit.get("fns", {}).get(fnpath, {})
                 key = opts.get("file") or cfg.get("file") or unit.get("default_file")
                 S = src(key)
-                f = S.find_fn(cfg.get("src", fnpath))
+                try:
+                    f = S.find_fn(cfg.get("src", fnpath))
+                except Undecided:
+                    if not cfg.get("optional"):
+                        raise
+                    # an OPTIONAL private helper under contract no longer exists (typically inlined into its only caller): its contract
+                    # header is dropped; the callers' contracts still state the property and see the inlined code directly
+                    k = len(g.lines) - 1
+                    while k >= 0 and not (re.search(r"\bfn\s+\w+", g.lines[k]) and not g.lines[k].strip().startswith("//")):
+                        k -= 1
+                    while k > 0 and re.match(r"^\s*(#\[[^\]]*\]\s*)+$", g.lines[k - 1]):
+                        k -= 1
+                    if k < 0:
+                        raise Undecided("template: no fn before //@body %s" % fnpath)
+                    del g.lines[k:]
+                    del g.origin[k:]
+                    g.rules_applied["optional-helper-absent"] = g.rules_applied.get("optional-helper-absent", 0) + 1
+                    continue
                 body = strip_comments(f["body"])
                 if not cfg.get("no_inline") and not unit.get("no_inline"):
                     ilog = {}
@@ -703,6 +720,9 @@ def run_unit(name, workdir, rlimit=None, seed=None, twins=True):
         rl = [t for t in tterr if "rlimit" in t["message"] and any(any(w["start"] <= sp["line"] <= w["end"] for w in tw) for sp in t["spans"])]
         tterr = [t for t in tterr if t not in rl]
         tverr = tverr + rl
+        # a solver budget exhausted on an ORIGINAL function inside the twins file says nothing about the twins (that function is decided by
+        # the main run); only the twins themselves are judged here
+        tterr = [t for t in tterr if "rlimit" not in t["message"]]
         res["twins_total"] = len(tw)
         if tr["out"] is None or tterr or (tr["out"].get("verification-results") or {}).get("encountered-vir-error"):
             res["undecided"].append("twin run failed (tool/compile error): %s" % "; ".join(t["message"] for t in tterr)[:300])
